@@ -3,6 +3,7 @@ import Prism.Model.Color
 import Prism.Check.C01
 import Prism.Driver.BytesOps
 import Prism.Driver.FloatOps
+import Prism.Driver.ImageOps
 
 /-!
 # Model driver: one operation per input line, one canonical answer per output line.
@@ -73,6 +74,9 @@ def handle (toks : List String) : String :=
   | some r => r
   | none =>
   match Ops.handleFloat toks with
+  | some r => r
+  | none =>
+  match Ops.handleImage toks with
   | some r => r
   | none =>
   match toks with
